@@ -52,7 +52,23 @@ fn proposal_cid(p: &DealProposal) -> Cid {
 
 impl Mkt {
     pub fn new(seed: u64) -> Mkt {
+        Mkt::new_with_id_base(seed, 0)
+    }
+
+    /// `id_base`: the first deal id the market hands out.  The epoch at which the cron first looks at a deal is
+    /// start + (id mod the processing interval); with the tiny ids of a fresh chain a deal that missed its start is
+    /// cleaned up within an epoch or two, with realistic ids it stays around (and can be settled by hand) for a while.
+    pub fn new_with_id_base(seed: u64, id_base: u64) -> Mkt {
         let v = VVM::genesis(Policy::default());
+        if id_base > 0 {
+            let mut ms: State = v.state(&STORAGE_MARKET_ACTOR_ADDR).unwrap();
+            ms.next_id = id_base;
+            let head = v.put_store(&ms);
+            let mut a = v.actor(&STORAGE_MARKET_ACTOR_ADDR).unwrap();
+            a.state = head;
+            v.set_actor(&STORAGE_MARKET_ACTOR_ADDR, a);
+            v.checkpoint();
+        }
         let accts = v.create_accounts(5, seed, &TokenAmount::from_whole(100_000));
         let bls = create_bls_accounts(&v, 2, seed, &TokenAmount::from_whole(10));
         let mut names = BTreeMap::new();
@@ -604,6 +620,22 @@ fn random_call(rng: &mut Rng, m: &Mkt) -> Value {
             }
         }
     }
+    // published deals whose start epoch has passed without activation ("timed out"), not yet reached by the cron:
+    // settle several of them in ONE call now and then
+    {
+        let late: Vec<i64> = st["prop"].as_array().unwrap().iter()
+            .filter(|p| !active.contains(&p["id"].as_i64().unwrap()) && p["d"]["start"].as_i64().unwrap() < epoch)
+            .map(|p| p["id"].as_i64().unwrap()).collect();
+        if late.len() >= 2 && rng.chance(45) {
+            let mut ids = late.clone();
+            if rng.chance(30) && !active.is_empty() {
+                ids.push(*rng.pick(&active));
+            }
+            ids.sort();
+            ids.dedup();
+            return json!({"a": "Settle", "c": *rng.pick(&["x", "c1", "o1"]), "ids": ids});
+        }
+    }
     // activation lists with a non-adjacent repeat
     if waiting.len() >= 2 && rng.chance(12) {
         // two deals of the same provider that can both still be activated, if there are such
@@ -727,6 +759,14 @@ fn random_call(rng: &mut Rng, m: &Mkt) -> Value {
                 targets.push(e);
                 targets.push(e + 1);
             }
+            // with two or more published-but-unactivated deals: just past the latest of their start epochs (both have
+            // then timed out, usually before the cron reaches either)
+            if waiting.len() >= 2 {
+                let latest = waiting.iter().map(|w| w["d"]["start"].as_i64().unwrap()).max().unwrap();
+                for _ in 0..4 {
+                    targets.push(latest + 1);
+                }
+            }
             let fut: Vec<i64> = targets.into_iter().filter(|t| *t > epoch).collect();
             let t = *rng.pick(&fut);
             json!({"a": "Tick", "n": t - epoch})
@@ -750,9 +790,14 @@ pub fn main(args: &[String]) {
     };
     if let Some(b) = arg(args, "--behaviours") {
         for (i, (_, beh)) in read_schedules(b, 1).iter().enumerate() {
-            let m = Mkt::new(seed + i as u64);
+            // a recorded random schedule starts with the parameters of its world
+            let id_base = beh.first().filter(|c| c["a"] == json!("World")).and_then(|c| c["idBase"].as_u64()).unwrap_or(0);
+            let m = Mkt::new_with_id_base(seed + i as u64, id_base);
             begin(&mut t, &m);
             for call in beh {
+                if call["a"] == json!("World") {
+                    continue;
+                }
                 t.line(&m.step(call));
             }
             if let Some(s) = sched_out.as_mut() {
@@ -764,9 +809,10 @@ pub fn main(args: &[String]) {
     let len = arg_u64(args, "--len", 40);
     let mut rng = Rng::new(seed);
     for i in 0..n {
-        let m = Mkt::new(seed.wrapping_mul(1000) + i);
+        let id_base = if rng.chance(60) { 40_000 + rng.range(0, 5000) as u64 } else { 0 };
+        let m = Mkt::new_with_id_base(seed.wrapping_mul(1000) + i, id_base);
         begin(&mut t, &m);
-        let mut calls = vec![];
+        let mut calls = vec![json!({"a": "World", "idBase": id_base})];
         // start funded, so that publications have a chance
         for (party, amt) in [("c1", 3 * MIN_DUR + 40), ("m1", 50), ("m2", 20), ("k", 2 * MIN_DUR + 11)] {
             let call = json!({"a": "AddBalance", "c": "x", "party": party, "amt": amt});
